@@ -1185,6 +1185,8 @@ def _step(x, up):
             ex.assume(z3.And(z3.Implies(ox < x, v < t), z3.Implies(ox > x, v > t), z3.Implies(ox == x, v == t)), axiom=True)
         if k and k[0] == "nextafter" and k[1] != up and k[2] != x.get_id():
             ox = ex.memo[("nextafter_arg", k[2])]
+            # floats are symmetric: nextafter(-x, -inf) = -nextafter(x, +inf)
+            ex.assume(z3.Implies(ox == -x, v == -t), axiom=True)
             # v = step of ox in the opposite direction; no float strictly between
             if up:   # v = down(ox):  ox > x  =>  down(ox) >= x ; and up(x) <= ox
                 ex.assume(z3.Implies(ox > x, z3.And(v >= x, t <= ox)), axiom=True)
